@@ -236,7 +236,7 @@ theorem label_fits (rows : List α) (limit : Nat) (tt lazy : Bool) (hl : 0 < lim
     cases tt with
     | false =>
       have := hhead rfl
-      simp only [lazySelect]
+      simp only [lazySelect, spec_lazyHeadOnlyTake, spec_lazyHeadTake, spec_dequeMax]
       rw [if_pos ⟨hl, trivial⟩]
       simp only [List.length_take, spec_lazyHeadOnly]; omega
     | true =>
@@ -318,7 +318,7 @@ theorem box_lines_equal_width_spec (cw : Char → Nat) (hcw : ∀ c, Printable c
       ∧ ∀ l ∈ lines, l.1 = true →
           pwidth l.2 = tableWidth (idxWidth specArith p f) (colWidths specArith p f) ∧ scan false l.2 = (pwidth l.2, false)
             ∧ OkStr l.2 := by
-  have hcw' := colWidthsGo_spec p.showTypes p.maxCol (cutRows specArith f.rows p.limit p.tt p.lazy) hm 0 f.names f.types
+  have hcw' := colWidthsGo_spec p.showTypes p.maxCol (measuredRows specArith p f) hm 0 f.names f.types
     hf.types_len
   have hwlen : (colWidths specArith p f).length = f.names.length := hcw'.1
   have hws : ∀ w ∈ colWidths specArith p f, 1 ≤ w := hcw'.2
